@@ -1,9 +1,11 @@
 import DimodProofs.Pack
+import DimodProofs.SortPerm
 
 /-! The vectors form of a BQM (`to_numpy_vectors` → `from_numpy_vectors`) preserves every coefficient,
     whatever label order the sort produces; COO text round trip. -/
 
 namespace Pack
+open SSM
 
 /-- the coefficient of the unordered pair `{u, v}` in a COO list (duplicates accumulate) -/
 def coef (q : List (Nat × Nat × Rat)) (u v : Nat) : Rat :=
@@ -92,6 +94,73 @@ theorem fromVectors_swap (t : Nat × Nat × Rat) :
   · have h' : t.2.1 ≤ t.1 := by omega
     left; rw [Nat.max_eq_left h', Nat.min_eq_right h']
 
+/-! ### the Python fallback: one permutation applied to three parallel arrays -/
+
+theorem gather_zip_eq (a : List α) (b : List β) (idx : List Nat) (hl : a.length = b.length) (h : ∀ i ∈ idx, i < a.length) :
+    gather (a.zip b) idx = (gather a idx).zip (gather b idx) := by
+  induction idx with
+  | nil => rfl
+  | cons i idx ih =>
+    have hi := h i (by simp)
+    have hib : i < b.length := hl ▸ hi
+    simp only [gather_cons, List.getElem?_zip_eq_some, List.getElem?_eq_getElem hi, List.getElem?_eq_getElem hib]
+    have hz : (a.zip b)[i]? = some (a[i], b[i]) := by
+      rw [List.getElem?_eq_getElem (by simp [hl, hib])]; simp
+    rw [hz, ih (fun j hj => h j (by simp [hj]))]
+    rfl
+
+theorem zipWith_triples (rows cols : List Nat) (biases : List Rat) :
+    (List.zipWith min rows cols).zip ((List.zipWith max rows cols).zip biases)
+      = cooNormalise (rows.zip (cols.zip biases)) := by
+  induction rows generalizing cols biases with
+  | nil => simp [cooNormalise]
+  | cons r rows ih =>
+    cases cols with
+    | nil => simp [cooNormalise]
+    | cons c cols =>
+      cases biases with
+      | nil => simp [cooNormalise]
+      | cons b biases =>
+        simp only [List.zipWith_cons_cons, List.zip_cons_cons, cooNormalise, List.map_cons]
+        have := ih cols biases
+        simp only [cooNormalise] at this
+        rw [this]
+        congr 1
+        by_cases h : r > c
+        · simp only [h, if_true]; rw [Nat.min_eq_right (by omega), Nat.max_eq_left (by omega)]
+        · simp only [h, if_false]; rw [Nat.min_eq_left (by omega), Nat.max_eq_right (by omega)]
+
+/-- as coded, the sorted arrays zipped together are a permutation of the normalised input triples: every bias stays
+    with its own (row, col) -/
+theorem sortIndicesPy_perm (q : QVec) (h1 : q.rows.length = q.cols.length) (h2 : q.cols.length = q.biases.length) :
+    (sortIndicesPy q).triples.Perm (cooNormalise q.triples) := by
+  simp only [sortIndicesPy, QVec.triples]
+  have hr : (List.zipWith min q.rows q.cols).length = q.rows.length := by simp [h1]
+  have hc : (List.zipWith max q.rows q.cols).length = q.rows.length := by simp [h1]
+  have hperm := argsortBy_perm (fun (a b : Nat × Nat) => decide (a.2 < b.2) || (decide (a.2 = b.2) && decide (a.1 ≤ b.1)))
+    ((List.zipWith min q.rows q.cols).zip (List.zipWith max q.rows q.cols))
+  have hlen : ((List.zipWith min q.rows q.cols).zip (List.zipWith max q.rows q.cols)).length = q.rows.length := by simp [h1]
+  rw [hlen] at hperm
+  have hlt : ∀ i ∈ lexsortPerm (List.zipWith min q.rows q.cols) (List.zipWith max q.rows q.cols), i < q.rows.length :=
+    fun i hi => by simpa using hperm.mem_iff.mp hi
+  rw [← gather_zip_eq _ _ _ (by rw [hc, ← h2, h1]) (by intro i hi; rw [hc]; exact hlt i hi),
+    ← gather_zip_eq _ _ _ (by rw [hr]; simp [hc, ← h2, h1]) (by intro i hi; rw [hr]; exact hlt i hi), zipWith_triples]
+  refine gather_perm _ _ ?_
+  have : (cooNormalise (q.rows.zip (q.cols.zip q.biases))).length = q.rows.length := by simp [cooNormalise, h1, ← h2]
+  rw [this]
+  exact hperm
+
+theorem cooSortPyArrays_perm (q : List (Nat × Nat × Rat)) : (cooSortPyArrays q).Perm (cooNormalise q) := by
+  have hz : ∀ (l : List (Nat × Nat × Rat)), (⟨l.map (·.1), l.map (·.2.1), l.map (·.2.2)⟩ : QVec).triples = l := by
+    intro l
+    simp only [QVec.triples]
+    induction l with
+    | nil => rfl
+    | cons t l ih => simp [ih]
+  have h := sortIndicesPy_perm ⟨q.map (·.1), q.map (·.2.1), q.map (·.2.2)⟩ (by simp) (by simp)
+  rw [hz q] at h
+  exact h
+
 /-- the vectors form keeps every coefficient: for any label order (a permutation `order` of the
     indices), after `to_numpy_vectors` (re-index, normalise, sort — either back-end) and
     `from_numpy_vectors`, the variable that was at index `u` sits at `order.idxOf u` with the same linear
@@ -111,14 +180,14 @@ theorem vectors_roundtrip (b : BQMIdx) (order : List Nat) (py : Bool)
   · intro u v hu hv
     simp only [fromVectors, toVectors]
     rw [coef_map_swap _ fromVectors_swap]
-    have hsorted : ∀ q : List (Nat × Nat × Rat), coef (if py then cooSortPy q else cooSort q) (order.idxOf u) (order.idxOf v)
+    have hsorted : ∀ q : List (Nat × Nat × Rat), coef (if py then cooSortPyArrays q else cooSort q) (order.idxOf u) (order.idxOf v)
         = coef q (order.idxOf u) (order.idxOf v) := by
       intro q
       cases py
       · simp only [Bool.false_eq_true, if_false, cooSort]
         rw [coef_perm (List.mergeSort_perm _ _), cooNormalise, coef_map_swap _ cooNormalise_swap]
-      · simp only [if_true, cooSortPy]
-        rw [coef_perm (List.mergeSort_perm _ _), cooNormalise, coef_map_swap _ cooNormalise_swap]
+      · simp only [if_true]
+        rw [coef_perm (cooSortPyArrays_perm _), cooNormalise, coef_map_swap _ cooNormalise_swap]
     rw [hsorted]
     refine coef_reindex (order.idxOf ·) b.quad (· ∈ order) ?_ (fun t ht => ⟨hmem _ (hq t ht).1, hmem _ (hq t ht).2⟩) u v (hmem u hu) (hmem v hv)
     intro a c ha hc e
@@ -379,5 +448,85 @@ theorem bqmdoc_roundtrip (labels : List PV) (b : BQMIdx) (order : List Nat) (py 
     rw [hlen]; simpa using this
   rw [List.getD, List.getElem?_eq_getElem hi', Option.getD_some]
   exact hmem labels hl _ (List.getElem_mem hi')
+
+end Pack
+
+namespace Pack
+open SSM
+
+/-! ### COO: emission order, upper triangle by label, vartype header -/
+
+/-- order of the written lines -/
+def tripleLt (a b : Nat × Nat × Int) : Prop := a.1 < b.1 ∨ (a.1 = b.1 ∧ a.2.1 < b.2.1)
+
+theorem cooRow_entries (lin : Nat → Int) (nz : Nat → Bool) (quad : Nat → Nat → Option Int) (u0 v : Nat) (t : Nat × Nat × Int)
+    (h : cooEntry lin nz quad u0 v = some t) : t.1 = u0 ∧ t.2.1 = v := by
+  unfold cooEntry at h
+  split at h
+  · rename_i e
+    split at h
+    · simp only [Option.some.injEq] at h; subst h; exact ⟨rfl, e⟩
+    · cases h
+  · simp only [Option.map_eq_some_iff] at h
+    obtain ⟨b, _, rfl⟩ := h
+    exact ⟨rfl, rfl⟩
+
+/-- the writer emits every pair once, with the smaller *label* first (upper triangle by label, not by rank), in
+    lexicographic order of `(u, v)` -/
+theorem cooRows_sorted (lin : Nat → Int) (nz : Nat → Bool) (quad : Nat → Nat → Option Int) (vs : List Nat)
+    (hs : vs.Pairwise (· < ·)) :
+    (cooRows lin nz quad vs).Pairwise tripleLt ∧
+    ∀ t ∈ cooRows lin nz quad vs, t.1 ≤ t.2.1 ∧ t.1 ∈ vs ∧ t.2.1 ∈ vs := by
+  induction vs with
+  | nil => simp [cooRows]
+  | cons u0 rest ih =>
+    obtain ⟨h0, hrest⟩ := List.pairwise_cons.mp hs
+    obtain ⟨ih1, ih2⟩ := ih hrest
+    have hrow : ∀ t ∈ (u0 :: rest).filterMap (cooEntry lin nz quad u0), t.1 = u0 ∧ t.2.1 ∈ u0 :: rest := by
+      intro t ht
+      obtain ⟨v, hv, he⟩ := List.mem_filterMap.mp ht
+      obtain ⟨e1, e2⟩ := cooRow_entries lin nz quad u0 v t he
+      exact ⟨e1, e2 ▸ hv⟩
+    constructor
+    · rw [cooRows, List.pairwise_append]
+      refine ⟨?_, ih1, ?_⟩
+      · refine List.Pairwise.filterMap (cooEntry lin nz quad u0) ?_ hs
+        intro a a' haa b hb b' hb'
+        obtain ⟨e1, e2⟩ := cooRow_entries lin nz quad u0 a b (by simpa using hb)
+        obtain ⟨e1', e2'⟩ := cooRow_entries lin nz quad u0 a' b' (by simpa using hb')
+        right
+        exact ⟨e1.trans e1'.symm, by rw [e2, e2']; exact haa⟩
+      · intro a ha b hb
+        left
+        rw [(hrow a ha).1]
+        exact h0 _ (ih2 b hb).2.1
+    · intro t ht
+      rw [cooRows, List.mem_append] at ht
+      rcases ht with ht | ht
+      · obtain ⟨e1, e2⟩ := hrow t ht
+        refine ⟨?_, by simp [e1], e2⟩
+        rw [e1]
+        rcases List.mem_cons.mp e2 with e | e
+        · omega
+        · exact Nat.le_of_lt (h0 _ e)
+      · obtain ⟨a, b, c⟩ := ih2 t ht
+        exact ⟨a, List.mem_cons_of_mem _ b, List.mem_cons_of_mem _ c⟩
+
+theorem sorted_lt_of_nodup (l : List Nat) (hnd : l.Nodup) :
+    (l.mergeSort (fun a b => decide (a ≤ b))).Pairwise (· < ·) := by
+  have hp := List.mergeSort_perm l (fun a b => decide (a ≤ b))
+  have hs := List.pairwise_mergeSort (le := fun (a b : Nat) => decide (a ≤ b))
+    (fun a b c => by simp only [decide_eq_true_eq]; omega) (fun a b => by simp only [Bool.or_eq_true, decide_eq_true_eq]; omega) l
+  have hn : (l.mergeSort (fun a b => decide (a ≤ b))).Pairwise (· ≠ ·) := List.nodup_iff_pairwise_ne.mp (hp.nodup_iff.mpr hnd)
+  refine (hs.and hn).imp ?_
+  intro a b h
+  have h1 : a ≤ b := by simpa using h.1
+  have := h.2
+  omega
+
+theorem cooLoadVartype_same (vt : VT) (k : Nat) : cooLoadVartype (some vt) (List.replicate k vt) = some vt := by
+  induction k with
+  | zero => rfl
+  | succ k ih => simp [List.replicate_succ, cooLoadVartype, ih]
 
 end Pack
